@@ -182,6 +182,7 @@ fn subst_call(c: &Call, pal: &[String]) -> Call {
         Call::DurCompare { a, b, rel } => Call::DurCompare { a: a.clone(), b: b.clone(), rel: f(rel) },
         Call::InstantStr { t, zone } => Call::InstantStr { t: *t, zone: zone.as_ref().map(f) },
         Call::PdtToZdt { y, mo, d, h, mi, sec, zone, dis } => Call::PdtToZdt { y: *y, mo: *mo, d: *d, h: *h, mi: *mi, sec: *sec, zone: f(zone), dis: *dis },
+        Call::Now { which, zone } => Call::Now { which: *which, zone: f(zone) },
         Call::InjectPanic => Call::InjectPanic,
     }
 }
@@ -287,6 +288,7 @@ fn call_strategy(palette: Vec<String>, good_only: bool) -> BoxedStrategy<Call> {
                 .prop_map(|((y, mo, d), (h, mi, sec), zone, dis)| Call::PdtToZdt { y, mo, d, h, mi, sec, zone, dis })
                 .boxed(),
         ),
+        (2, (0u8..3, zone_from(p, good_only)).prop_map(|(which, zone)| Call::Now { which, zone }).boxed()),
     ])
 }
 
@@ -680,6 +682,7 @@ mod poisoned {
         fn dur_compare(&self, _: &Duration, _: &Duration, _: Option<RelativeTo>) -> TemporalResult<Ordering> { e() }
         fn instant_str(&self, _: &Instant, _: Option<&TimeZone>) -> TemporalResult<String> { e() }
         fn pdt_to_zdt(&self, _: &PlainDateTime, _: &TimeZone, _: Disambiguation) -> TemporalResult<ZonedDateTime> { e() }
+        fn now(&self, _: u8, _: TimeZone) -> TemporalResult<()> { e() }
     }
     pub const DISPLAY_POISON: &str = "<Display panics on the lock error>";
 }
@@ -871,7 +874,7 @@ pub fn run(ctx: &mut Ctx) {
     ctx.rule = "program (a): palette of 2-6 real IANA zones out of 52; N in {2,4,8,16} threads x calls (a total of 100-200 calls is split over the threads, each thread list has 1-100 generated calls, so 2-thread programs can be shorter; ZonedDateTime from_str/accessors/add/subtract/until/since/with_plain_time/start_of_day/hours_in_day/to_plain_*/to_ixdtf_string/Display, Duration round/total/compare with RelativeTo::try_from_str, Instant::to_ixdtf_string, PlainDateTime::to_zoned_date_time), ~12% of zone references unknown / mis-cased / truncated / fixed-offset, malformed strings and out-of-range values mixed in; optional sequential warm-up; in 2/3 of the programs every thread starts with a call on the same cold zone. Each program runs in fresh child processes: single-threaded in generated global orders (random interleaving picks, rotations), then with one OS thread per list behind a barrier; every result must equal the call alone through *_with_provider against a fresh FsTzdbProvider (errors by kind, values exactly), and no result may be the lock error. non-trivial = >= 2 threads reference the same real zone that the warm-up did not touch. fault (b): histories = 1-3 generated succeeding calls with one failing call of each of 15 kinds inserted at every position (calls after it alternately on a second thread), plus every ordered pair of kinds as fault,call,fault,call; each in a fresh child process; non-trivial = a failing call is followed by a call that succeeds alone.".into();
     ctx.assumptions = vec![
         "oracle = the same call alone: core *_with_provider API against a fresh FsTzdbProvider, computed in the parent process which never uses TZ_PROVIDER".into(),
-        "ZonedDateTime::microsecond()/nanosecond() are not used (mis-wired wrappers are C19's subject); Now::* is not used (feature sys, clock)".into(),
+        "ZonedDateTime::microsecond()/nanosecond() are not used (mis-wired wrappers are C19's subject); Now::plain_datetime_iso / plain_date_iso / plain_time_iso are compared by verdict only (the reading depends on the clock)".into(),
         "calls whose isolated run panics (defects of C03/C13) are not executed inside concurrent programs (they would poison the lock as a side effect); the fault histories execute them as faults".into(),
         format!("liveness is observed as a bounded wait: worker watchdog {} s (TVERIF_C20_TIMEOUT_S); a hang that repeats in the same single-threaded schedule is a violation, any other timeout is exit 2", timeout_s()),
     ];
